@@ -84,9 +84,11 @@ func specFromCase(cs CaseSpec) ScheduleSpec {
 		Simultaneous: cs.I("simultaneous", 0) == 1,
 		Rejoin:     cs.I("rejoin", 0) == 1,
 		FastSyncJoiners: cs.I("fsjoin", 0) == 1,
+		ResetInWindow: cs.I("resetinwindow", 0) == 1,
 		CallbackTxProb: float64(cs.I("cbtx", 0)) / 100.0,
 		KeepSilent: cs.I("keepsilent", 0) == 1,
 	}
+	sp.CloseLeaves = cs.I("closeleaves", 0) == 1
 	sp.FFResets = int(cs.I("ffresets", 0))
 	sp.FFSingleServer = cs.I("ffsingle", 0) == 1
 	if cs.I("dupcontent", 0) == 1 {
@@ -127,11 +129,12 @@ func runHistory(cs CaseSpec, mk func(nw *Network) []Monitor, after func(nw *Netw
 	opts := optsFromCase(cs)
 	nw.DefaultOpts = opts
 	nw.GenesisNodes(int(cs.I("n", 4)), opts, nil)
-	if p := cs.I("storeerr", 0); p > 0 {
-		// storage faults: SetEvent fails now and then on every node (nothing is written)
+	if p, q := cs.I("storeerr", 0), cs.I("frameerr", 0); p > 0 || q > 0 {
+		// storage faults: SetEvent (storeerr) or SetFrame (frameerr) fails now and
+		// then on every node (nothing is written)
 		for _, x := range nw.Nodes {
 			if x.Node != nil && !x.Puppet {
-				x.Core.Hg().Store = &faultyStore{Store: x.Core.Hg().Store, rng: cs.rng(fmt.Sprint("fs", x.Idx)), perMille: int(p), res: res}
+				x.Core.Hg().Store = &faultyStore{Store: x.Core.Hg().Store, rng: cs.rng(fmt.Sprint("fs", x.Idx)), perMille: int(p), framePerMille: int(q), self: x.PubHex, res: res}
 			}
 		}
 	}
@@ -260,6 +263,10 @@ func init() {
 					cs[i].P["ffsingle"] = 1 // served by one random peer, possibly one that lags behind the resetting node
 					delete(cs[i].P, "rejoin")
 				}
+				if i%4 == 3 {
+					// transient failures writing frames, i.e. in the middle of turning decided rounds into blocks
+					cs[i].P["frameerr"] = int64(60 + 40*(i%5))
+				}
 			}
 			soaks := 2
 			if tier == "thorough" {
@@ -344,6 +351,17 @@ func init() {
 				if i%3 == 1 && cs[i].P["n"] >= 4 {
 					cs[i].P["quietitx"] = 1
 				}
+				if i%6 == 3 && cs[i].P["n"] >= 4 && cs[i].P["keepsilent"] == 0 {
+					// two validators leave one right after the other: both changes are pending together
+					cs[i].P["leaves"] = 2
+					cs[i].P["closeleaves"] = 1
+					cs[i].P["joins"] = 0
+					cs[i].P["refused"] = 0
+					if i%12 == 3 {
+						cs[i].P["n"] = 4
+					}
+					delete(cs[i].P, "rejoin")
+				}
 				if cs[i].S["shape"] == "silent" {
 					cs[i].P["keepsilent"] = int64(i % 2)
 					// a dead minority and membership changes interact with the 1/3 bound: keep sets static there
@@ -406,6 +424,30 @@ func init() {
 				cs[i].P["joins"] += int64(i % 2)
 				delete(cs[i].P, "rejoin")
 				cs[i].P["badger"] = 0
+				if i%4 == 1 {
+					// two validator-set changes decided within a few rounds, resets
+					// while both are pending, another change afterwards
+					cs[i].P["n"] = int64(5 + i%3)
+					cs[i].P["leaves"], cs[i].P["closeleaves"], cs[i].P["resetinwindow"] = 2, 1, 1
+					cs[i].P["joins"], cs[i].P["refused"], cs[i].P["simultaneous"] = 0, 0, 0
+					cs[i].P["ffresets"] = 3
+					cs[i].S["shape"] = "uniform"
+				}
+			}
+			// dedicated histories for resets that adopt an anchor at which two
+			// validator-set changes are pending
+			extra := 24
+			if tier == "thorough" {
+				extra = 240
+			}
+			for j := 0; j < extra; j++ {
+				c := CaseSpec{Kind: "history", Seed: seed + 86028121, Index: len(cs), P: map[string]int64{}, S: map[string]string{"shape": "uniform"}}
+				c.P["n"] = int64(6 + j%2)
+				c.P["steps"] = int64(380 + 20*(j%5))
+				c.P["leaves"], c.P["closeleaves"], c.P["resetinwindow"] = 2, 1, 1
+				c.P["ffresets"] = 5
+				c.P["ffsingle"] = int64(j % 2)
+				cs = append(cs, c)
 			}
 			return cs
 		},
@@ -435,14 +477,49 @@ type faultyStore struct {
 	hg.Store
 	rng      *rand.Rand
 	perMille int
-	res      *CaseResult
+	// framePerMille: SetFrame fails (a transient write failure while a decided
+	// round is turned into a block; nothing is written and nothing else has
+	// happened yet for that round, so the round is simply retried later)
+	framePerMille  int
+	self           string // creator string of the node's own events
+	lastOwn        bool   // the event being inserted is the node's own
+	framesThisPass int    // frames written since the last event insertion
+	res            *CaseResult
+}
+
+func (f *faultyStore) SetFrame(fr *hg.Frame) error {
+	// Never while the node inserts its own new event: the real code does not
+	// survive that (the event is stored but the core's head is not advanced, and
+	// every later self-event is refused) - a half-completed insertion again,
+	// outside what these properties quantify over. Later frames of one
+	// consensus pass fail more often than the first: that is the rarer position.
+	if f.framePerMille > 0 && !f.lastOwn {
+		p := f.framePerMille
+		if f.framesThisPass > 0 {
+			p = 500
+		}
+		if f.rng.Intn(1000) < p {
+			f.res.count("injected_frame_write_errors", 1)
+			if f.framesThisPass > 0 {
+				f.res.count("injected_frame_write_errors_after_a_block_of_the_same_pass", 1)
+			}
+			return fmt.Errorf("injected storage fault writing frame %d", fr.Round)
+		}
+	}
+	f.framesThisPass++
+	return f.Store.SetFrame(fr)
 }
 
 func (f *faultyStore) SetEvent(e *hg.Event) error {
+	if _, err := f.Store.GetEvent(e.Hex()); err != nil {
+		// first write = start of an insertion and of its consensus pass
+		f.lastOwn = e.Creator() == f.self
+		f.framesThisPass = 0
+	}
 	// only the first write of an event fails (the insertion fails as a whole,
 	// nothing was stored): failing a later re-write of an already inserted
 	// event would model a half-completed insertion, which is outside C05
-	if _, err := f.Store.GetEvent(e.Hex()); err != nil && f.rng.Intn(1000) < f.perMille {
+	if _, err := f.Store.GetEvent(e.Hex()); err != nil && f.perMille > 0 && f.rng.Intn(1000) < f.perMille {
 		f.res.count("injected_store_errors", 1)
 		return fmt.Errorf("injected storage fault")
 	}
